@@ -509,6 +509,12 @@ func (fv *FV) checkFrame(ex *Exit, k int, at ast.Node) {
 	}
 	comps := sortedKeys(fv.compSort)
 	r := fv.s.declConst("frame!r", sRef)
+	nFrame := 0
+	defer func() {
+		if nFrame == 0 {
+			fv.obligeNamed(ex.env, "frame", fmt.Sprintf("frame:nothing-written@return%d", k+1), at, "no heap component is written on this path", tTrue)
+		}
+	}()
 	for _, c := range comps {
 		srt := fv.compSort[c]
 		if strings.HasPrefix(c, "ghost$") {
@@ -528,6 +534,7 @@ func (fv *FV) checkFrame(ex *Exit, k int, at ast.Node) {
 			outside = append(outside, not(eq(r, f)))
 		}
 		cond := implies(and(append(outside, sel(fv.entry.alloc, fv.rootOf(r)))...), eq(sel(a1, r), sel(a0, r)))
+		nFrame++
 		fv.obligeNamed(ex.env, "frame", fmt.Sprintf("frame:%s@return%d", c, k+1), at,
 			"only the declared `modifies` footprint of "+c+" changes", cond)
 	}
